@@ -283,7 +283,16 @@ C01(g, ev, g2) ==
      Cl("C01_b", KeyedBound(g, ev) /\ Ready(g, h) /\ ev.lat,
                  ev.res = "SC" /\ ev.rc = g.chans[h].cur),
      Cl("C01_d", KeyedBound(g, ev) /\ ~Ready(g, h) /\ ~g.cfg.fb,
-                 ev.res \in {"NOSC", "TF"}) }
+                 ev.res \in {"NOSC", "TF"}),
+     \* "after the UNBIND, K is routed like an unknown key": a call that carries a key without a home is placed like a call without a
+     \* key (the consequents of C02_d and C02_a, restricted to calls that do carry a key)
+     Cl("C01_u", Unkeyed(g, ev) /\ PKey(g, ev) # NoKey /\ PickerOk(g, ev) /\ g.pubs[ev.pk].st # "TF"
+                   /\ \E x \in PReady(g, ev) : Streams(g, x) < g.cfg.wm,
+                 ev.res = "SC"),
+     Cl("C01_u2", Unkeyed(g, ev) /\ PKey(g, ev) # NoKey /\ ev.res = "SC" /\ PickerOk(g, ev),
+                 /\ PlacedOnCur(g, ev)
+                 /\ PlacedCh(g, ev) \in PReady(g, ev)
+                 /\ \A x \in PReady(g, ev) : Streams(g, PlacedCh(g, ev)) <= Streams(g, x)) }
 
 C02(g, ev, g2) ==
   { Cl("C02_a", Unkeyed(g, ev) /\ ev.res = "SC" /\ PickerOk(g, ev),
@@ -481,7 +490,7 @@ Clauses(g, ev, g2) ==
   C01(g, ev, g2) \cup C02(g, ev, g2) \cup C03(g, ev, g2) \cup C04(g, ev, g2) \cup C05(g, ev, g2) \cup C06(g, ev, g2)
   \cup C07(g, ev, g2) \cup C08(g, ev, g2) \cup C09(g, ev, g2) \cup C17(g, ev, g2) \cup C20(g, ev, g2)
 
-ClauseIds == {"C01_a", "C01_b", "C01_d", "C02_a", "C02_b", "C02_d", "C03_a", "C03_b", "C03_c", "C03_d", "C03_e", "C03_f", "C03_g", "C03_s", "C02_s", "C04_s", "C09_s",
+ClauseIds == {"C01_a", "C01_b", "C01_d", "C01_u", "C01_u2", "C02_a", "C02_b", "C02_d", "C03_a", "C03_b", "C03_c", "C03_d", "C03_e", "C03_f", "C03_g", "C03_s", "C02_s", "C04_s", "C09_s",
               "C04_a", "C04_b", "C04_c", "C04_e", "C04_f", "C05_a", "C05_b", "C06_a", "C06_b", "C06_d",
               "C07_a", "C07_b", "C07_c", "C07_t", "C07_e", "C08_a", "C08_b", "C08_e", "C08_h", "C08_h2",
               "C09_a", "C09_a2", "C09_b", "C09_c", "C09_e", "C09_h", "C17_e", "C17_b", "C17_c", "C17_m", "C20_a", "C20_a2", "C20_b", "C20_c", "C20_d"}
